@@ -64,4 +64,37 @@ pub fn vx_set_addpath_tx(codec: &mut bgp::PeerCodec, family: bgp::Family, addpat
     ensures *final(codec) == codec_with_addpath(*old(codec), family, addpath),
 { codec.set_family(family, bgp::FamilyState { addpath_tx: addpath, ..Default::default() }); }
 
+
+/// `Family::IPV4.afi()` / `Family::IPV6.afi()` (IANA address family numbers 1 and 2: Family::new(AFI_IP = 1 / AFI_IP6 = 2, ..) >> 16; assumed)
+#[verifier::external_body]
+pub fn vx_afi_ipv4() -> (r: u16) ensures r == 1, { bgp::Family::IPV4.afi() }
+#[verifier::external_body]
+pub fn vx_afi_ipv6() -> (r: u16) ensures r == 2, { bgp::Family::IPV6.afi() }
+
+
+/// seconds since the Unix epoch, truncated to 32 bits (any value)
+#[verifier::external_body]
+pub fn vx_unix_secs() -> (r: u32)
+{ std::time::SystemTime::now().duration_since(std::time::SystemTime::UNIX_EPOCH).unwrap().as_secs() as u32 }
+/// the wire encoding of one path attribute (Attribute::encode_wire; C04 owns its definition)
+pub uninterp spec fn attr_wire(a: bgp::Attribute) -> Seq<u8>;
+#[verifier::external_body]
+pub fn vx_attr_encode_wire(a: &bgp::Attribute, dst: &mut BytesMut)
+    ensures (*final(dst)).bytes() == (*old(dst)).bytes() + attr_wire(*a),
+{ a.encode_wire(dst); }
+/// the wire encoding of one NLRI (Nlri::encode)
+pub uninterp spec fn nlri_wire(n: bgp::Nlri) -> Seq<u8>;
+#[verifier::external_type_specification]
+#[verifier::external_body]
+pub struct ExNlriB(bgp::Nlri);
+#[verifier::external_body]
+pub fn vx_nlri_encode(n: &bgp::Nlri, dst: &mut BytesMut)
+    ensures (*final(dst)).bytes() == (*old(dst)).bytes() + nlri_wire(*n),
+{ n.encode(dst).unwrap(); }
+/// Nexthop::to_bytes: 4, 16 or 32 octets
+pub uninterp spec fn nh_octets(n: bgp::Nexthop) -> Seq<u8>;
+pub assume_specification[ bgp::Nexthop::to_bytes ](n: &bgp::Nexthop) -> (r: Vec<u8>)
+    ensures r@ == nh_octets(*n), r@.len() == 4 || r@.len() == 16 || r@.len() == 32,
+;
+
 } // verus!
